@@ -66,6 +66,11 @@ func setup(sc gen.Scenario) ([]string, error) {
 				return nil, fmt.Errorf("initial rows %s: %v", q, err)
 			}
 		}
+		for _, q := range tb.BigInserts(name) {
+			if _, err := env.Bare.Exec(q); err != nil {
+				return nil, fmt.Errorf("bulk rows: %v", err)
+			}
+		}
 	}
 	return names, nil
 }
@@ -214,7 +219,11 @@ func execute(c Case) *pt.Failure {
 		}
 	}
 	for i := len(brs) - 1; i >= 0; i-- {
-		st, resp := env.TC.BranchRollback(env.Sess, brs[i], 5*time.Second)
+		wait := 5 * time.Second
+		if sc.Tables[0].BigRows > 0 {
+			wait = 120 * time.Second // thousands of compensating statements
+		}
+		st, resp := env.TC.BranchRollback(env.Sess, brs[i], wait)
 		if resp == nil {
 			return pt.Failf(sigOf(sc, "no-rollbacked-answer"), "branch %d (lock keys %q): no response to BranchRollback although nothing interferes\n%s", brs[i].ID, brs[i].LockKey, tail(env.Srv.Journal(), 14))
 		}
@@ -371,10 +380,44 @@ func scenarioOptions() gen.ScenarioOptions {
 	return o
 }
 
+var bigDone bool
+
+// bigCase: every process begins with one statement over more rows than one IN list of the image and
+// validation queries holds (1000); size and statement kind follow the shard number.
+func bigCase() Case {
+	sh := 0
+	if v := os.Getenv("VERIF_SHARD"); v != "" {
+		fmt.Sscanf(v, "%d", &sh)
+	}
+	n := []int{1001, 2000, 1500, 1000, 999, 2001, 2500, 3000}[sh%8]
+	kind := []string{"update", "delete", "insert"}[(sh/2)%3]
+	tb := gen.TableSpec{KeyShape: "int", Cols: []gen.ColSpec{{Name: "id", Type: "INT", Base: "INT"}, {Name: "c0", Type: "INT", Base: "INT", Nullable: true}, {Name: "c1", Type: "VARCHAR(32)", Base: "VARCHAR", Nullable: true}}, PK: []string{"id"},
+		Rows: [][]gen.Lit{{{Kind: "int", I: 1}, {Kind: "int", I: 5}, {Kind: "str", S: "a"}}}, BigRows: n}
+	tables := []gen.TableSpec{tb}
+	return Case{Scenario: gen.Scenario{Tables: tables, Branches: []gen.Branch{{Mode: "auto", Via: "db", Stmts: []gen.Stmt{gen.BigStmt(nil, tables, 0, kind, n)}}},
+		Config: gen.Config{Serializer: "json", Compress: "None", Validation: true, OnlyUpdate: sh%2 == 0}}}
+}
+
 func TestPropRollbackRestores(t *testing.T) {
+	if !bigDone {
+		bigDone = true
+		c := bigCase()
+		lastOutcome = outcome{}
+		fl := runCase(c)
+		record("rollback", c, lastOutcome)
+		ctx.Judge(t, "rollback", fl, c)
+	}
 	ctx.Check(t, func(rt *rapid.T) {
 		c := Case{Scenario: gen.DrawScenario(rt, scenarioOptions()),
 			Unrelated: rapid.SampledFrom([]int{0, 0, 1, 3}).Draw(rt, "unrelated")}
+		if c.Scenario.Tables[0].KeyShape == "int" && len(c.Scenario.Tables[0].Unique) == 0 && rapid.IntRange(0, 299).Draw(rt, "large") == 157 {
+			// a statement over more rows than one IN list of the image / validation queries holds (1000)
+			n := rapid.SampledFrom([]int{999, 1000, 1001, 1500, 2000, 2001}).Draw(rt, "bigRows")
+			c.Scenario.Tables[0].BigRows = n
+			kind := rapid.SampledFrom([]string{"update", "update", "delete", "insert"}).Draw(rt, "bigKind")
+			st := gen.BigStmt(rt, c.Scenario.Tables, 0, kind, n)
+			c.Scenario.Branches = append([]gen.Branch{{Mode: "auto", Via: "db", Stmts: []gen.Stmt{st}}}, c.Scenario.Branches...)
+		}
 		lastOutcome = outcome{}
 		fl := runCase(c)
 		record("rollback", c, lastOutcome)
